@@ -226,6 +226,7 @@ def dump(repo: str) -> dict:
     out["answers"] = [a for a in (_answer(k) for k in out["request_kinds"]) if a is not None]
     out["set_routes"] = _set_routes(parameter, ecomax_parameters, mixer_parameters, thermostat_parameters, schedules, dev_ecomax)
     out["events_tables"] = _events_tables()
+    out["pipeline"] = _pipeline()
     return out
 
 
@@ -486,6 +487,7 @@ def emit_lean(d: dict) -> dict[str, str]:
     body += "end PlumVerif.Gen\n"
     files["Requests.lean"] = body
     files["EventsTables.lean"] = emit_events_tables(d, hdr)
+    files["Pipeline.lean"] = _emit_pipeline(d["pipeline"], hdr)
     return files
 
 
@@ -657,6 +659,269 @@ def emit_events_tables(d: dict, hdr: str) -> str:
     body += f"def attrFrameErrors : String := {lean_str(t['attr_frame_errors'])}\n"
     body += f"def hasFrameVersionParams : List (String × String) := {plist(t['has_frame_version'])}\n"
     body += f"def requestParams : List (String × String) := {plist(t['request_defaults'])}\n\n"
+    body += "end PlumVerif.Gen\n"
+    return body
+
+
+def _pipeline() -> dict:
+    """Facts of the receive pipeline and of device set-up, PROBED on the imported code (behaviour, not syntax, so that a
+    behaviour-preserving rewrite leaves them unchanged): what frame_consumer / frame_producer do when obtaining the entry,
+    handling, or reader.read() raises an exception of each family; how often request() transmits for retries = 0..3 and
+    what it raises; what async_setup makes of failed requests; what EcoMAX.async_setup waits for and in which order it
+    requests; which subscribed handlers block until product information is there
+    (Props/C09Contain, Props/C16 pin each of them to the statement by `decide`)."""
+    import asyncio
+    import struct
+    import types
+    from pyplumio import exceptions as exc_mod
+    from pyplumio import protocol as proto_mod
+    from pyplumio.const import DeviceType, FrameType, ProductType
+    from pyplumio.devices import PhysicalDevice
+    from pyplumio.devices import ecomax as ecomax_mod
+    from pyplumio.devices import mixer as mixer_mod
+    from pyplumio.devices import thermostat as thermostat_mod
+    from pyplumio.structures.network_info import NetworkInfo
+
+    protocol_family = [exc_mod.ProtocolError] + [c for c in vars(exc_mod).values()
+                                                 if isinstance(c, type) and issubclass(c, exc_mod.ProtocolError)]
+    families = {
+        "ProtocolError": protocol_family,
+        "OSError": [OSError, ConnectionResetError, BrokenPipeError, FileNotFoundError],
+        "TimeoutError": [asyncio.TimeoutError],
+        "other": [ValueError, KeyError, IndexError, TypeError, AttributeError, struct.error, UnicodeDecodeError, ZeroDivisionError,
+                  OverflowError, AssertionError, RuntimeError, NotImplementedError, RecursionError, EOFError, MemoryError,
+                  Exception, exc_mod.PyPlumIOError, exc_mod.ConnectionFailedError, asyncio.QueueFull],
+        "CancelledError": [asyncio.CancelledError],
+    }
+
+    def mk(cls):
+        for args in (("probe",), (), ("utf-8", b"\xff", 0, 1, "probe")):
+            try:
+                return cls(*args)
+            except Exception:  # noqa: BLE001
+                continue
+        raise RuntimeError(cls)
+
+    async def spin(n=30):
+        for _ in range(n):
+            await asyncio.sleep(0)
+
+    async def probe_consumer(cls, site):
+        proto = proto_mod.AsyncProtocol(consumers_count=1)
+        proto.connected.set()
+        q = asyncio.Queue()
+
+        class Dev:
+            def handle_frame(self, frame):
+                raise mk(cls)
+
+        async def entry(device_type):
+            if site == "entry":
+                raise mk(cls)
+            return Dev()
+
+        proto.get_device_entry = entry
+        for _ in range(2):
+            q.put_nowait(types.SimpleNamespace(sender=DeviceType.ECOMAX))
+        task = asyncio.ensure_future(proto.frame_consumer(q))
+        await spin()
+        ok = (not task.done()) and q._unfinished_tasks == 0 and q.empty()
+        task.cancel()
+        await asyncio.gather(task, return_exceptions=True)
+        return 1 if ok else 0
+
+    async def probe_producer(cls):
+        proto = proto_mod.AsyncProtocol()
+        proto.connected.set()
+        lost, reads = [], []
+
+        async def connection_lost():
+            lost.append(1)
+
+        proto.connection_lost = connection_lost
+
+        class Reader:
+            async def read(self):
+                reads.append(1)
+                if len(reads) == 1:
+                    raise mk(cls)
+                await asyncio.sleep(3600)
+
+        class Writer:
+            async def write(self, frame):
+                return None
+
+        queues = proto_mod.Queues(read=asyncio.Queue(), write=asyncio.Queue())
+        task = asyncio.ensure_future(proto.frame_producer(queues, reader=Reader(), writer=Writer()))
+        await spin()
+        if lost:
+            r = "break"
+        elif len(reads) >= 2 and not task.done():
+            r = "continue"
+        else:
+            r = "propagates"
+        task.cancel()
+        await asyncio.gather(task, return_exceptions=True)
+        for t in list(getattr(proto, "tasks", [])):
+            t.cancel()
+        return r
+
+    async def probe_request(r):
+        q = asyncio.Queue()
+        dev = ecomax_mod.EcoMAX(q, NetworkInfo())
+        ft = FrameType.REQUEST_UID
+        try:
+            await dev.request("never_provided", ft, retries=r, timeout=0.002)
+            raised = ("-", 99)
+        except Exception as e:  # noqa: BLE001
+            raised = (type(e).__name__, next((i for i, a in enumerate(e.args) if a == ft), 99))
+        return [r, q.qsize(), raised[0], raised[1]]
+
+    async def probe_setup_errors():
+        table = ecomax_mod.SETUP_FRAME_TYPES[:3]
+
+        class Dev(PhysicalDevice):
+            address = DeviceType.ECOMAX
+            _setup_frames = table
+
+            async def request(self, name, frame_type, retries=3, timeout=3.0):
+                if frame_type != table[0].frame_type:
+                    raise ValueError("probe", frame_type)
+                return 1
+
+        try:
+            dev = Dev(asyncio.Queue(), NetworkInfo())
+            await asyncio.wait_for(dev.async_setup(), 1.0)
+            return int(list(dev.data.get("frame_errors")) == [d.frame_type for d in table[1:]] and dev.data.get("loaded") is True)
+        except Exception:  # noqa: BLE001
+            return 0
+
+    async def probe_gate():
+        asked = []
+
+        class Dev(ecomax_mod.EcoMAX):
+            async def request(self, name, frame_type, retries=3, timeout=3.0):
+                asked.append(int(frame_type))
+                return 1
+
+        dev = Dev(asyncio.Queue(), NetworkInfo())
+        task = asyncio.ensure_future(dev.async_setup())
+        await spin()
+        opened = []
+        for name, value in (("product", types.SimpleNamespace(type=ProductType.ECOMAX_P, model="probe")), ("state", 0), ("password", "0000"),
+                            ("regdata", {}), ("modules", None), ("sensors", {})):
+            before = len(asked)
+            try:
+                await asyncio.wait_for(dev.dispatch(name, value), 0.2)
+            except Exception:  # noqa: BLE001
+                pass
+            await spin()
+            if len(asked) > before:
+                opened.append(name)
+        task.cancel()
+        await asyncio.gather(task, return_exceptions=True)
+        await dev.shutdown()
+        return opened, asked
+
+    async def probe_waiters():
+        rows = []
+
+        def fresh(cls):
+            parent = ecomax_mod.EcoMAX(asyncio.Queue(), NetworkInfo())
+            if cls is ecomax_mod.EcoMAX:
+                return parent, parent
+            return parent, cls(asyncio.Queue(), parent=parent, index=0)
+
+        for cls in (ecomax_mod.EcoMAX, mixer_mod.Mixer, thermostat_mod.Thermostat):
+            _, obj = fresh(cls)
+            subs = [(event, i) for event, cbs in obj._callbacks.items() for i in range(len(cbs))]
+            for event, i in subs:
+                parent, obj = fresh(cls)
+                cb = obj._callbacks[event][i]
+                fn = getattr(cb, "_callback", cb)
+                name = getattr(fn, "__name__", repr(fn))
+                waits = 0
+                try:
+                    await asyncio.wait_for(fn([]), 0.01)
+                except asyncio.TimeoutError:
+                    # it blocks without product information; with it, it must come back
+                    parent2, obj2 = fresh(cls)
+                    await parent2.dispatch("product", types.SimpleNamespace(type=ProductType.ECOMAX_P, model="probe"))
+                    fn2 = getattr(obj2._callbacks[event][i], "_callback", obj2._callbacks[event][i])
+                    try:
+                        await asyncio.wait_for(fn2([]), 0.2)
+                        waits = 1
+                    except asyncio.TimeoutError:
+                        waits = 2
+                    except Exception:  # noqa: BLE001
+                        waits = 1
+                    await parent2.shutdown()
+                except Exception:  # noqa: BLE001
+                    waits = 0
+                await parent.shutdown()
+                rows.append([cls.__name__, str(event), name, waits])
+        return rows
+
+    async def main():
+        out = {}
+        cons, prod, isa = [], [], []
+        for fam, reps in families.items():
+            for site in ("entry", "handle"):
+                v = {await probe_consumer(c, site) for c in reps}
+                cons.append([fam, site, v.pop() if len(v) == 1 else 2])
+            v = {await probe_producer(c) for c in reps}
+            prod.append([fam, v.pop() if len(v) == 1 else "mixed"])
+            v = {issubclass(c, Exception) for c in reps}
+            isa.append([fam, "Exception", (1 if v.pop() else 0) if len(v) == 1 else 2])
+        out["consumer_probe"], out["producer_probe"], out["exc_isa"] = cons, prod, isa
+        out["request_probe"] = [await probe_request(r) for r in (0, 1, 2, 3)]
+        out["setup_errors_probe"] = await probe_setup_errors()
+        out["setup_gate"], out["setup_request_order"] = await probe_gate()
+        out["handler_waits_product"] = await probe_waiters()
+        return out
+
+    import logging
+    logging.disable(logging.CRITICAL)     # the probes make the library log what it contains
+    try:
+        out = asyncio.run(main())
+    finally:
+        logging.disable(logging.NOTSET)
+    out["exc_families"] = {k: [c.__module__ + "." + c.__qualname__ for c in v] for k, v in families.items()}
+    out["setup_frames_of_device"] = [[int(d.frame_type), d.provides] for d in ecomax_mod.EcoMAX._setup_frames]
+    return out
+
+
+def _emit_pipeline(p: dict, hdr: str) -> str:
+    def strs(xs):
+        return "[" + ", ".join(lean_str(x) for x in xs) + "]"
+
+    body = hdr + "namespace PlumVerif.Gen\n\n"
+    body += ("/-- protocol.py `frame_producer`, probed: `reader.read()` raises an exception of the family once -> the loop goes on to the next\n"
+             "    read (continue) / schedules connection_lost and ends (break) / ends with the exception (propagates) -/\n")
+    body += "def producerProbe : List (String × String) := " + lean_list(
+        [f"({lean_str(f)}, {lean_str(r)})" for f, r in p["producer_probe"]], 3) + "\n\n"
+    body += ("/-- protocol.py `frame_consumer`, probed with two frames: obtaining the entry / handling raises an exception of the family ->\n"
+             "    1 = the consumer is still running and both frames are acknowledged (task_done), 0 = not, 2 = representatives disagree -/\n")
+    body += "def consumerProbe : List (String × String × Nat) := " + lean_list(
+        [f"({lean_str(f)}, {lean_str(s_)}, {v})" for f, s_, v in p["consumer_probe"]], 3) + "\n\n"
+    body += "/-- issubclass(<every representative of the family>, <class>): 1 yes, 0 no, 2 the representatives disagree -/\n"
+    body += "def excIsA : List (String × String × Nat) := " + lean_list(
+        [f"({lean_str(f)}, {lean_str(n)}, {v})" for f, n, v in p["exc_isa"]], 3) + "\n\n"
+    body += ("/-- devices/__init__.py `PhysicalDevice.request`, probed for an unanswered request: (retries, transmissions, class raised,\n"
+             "    position of the frame type in the exception's arguments) -/\n")
+    body += "def requestProbe : List (Nat × Nat × String × Nat) := [" + ", ".join(
+        f"({a}, {b}, {lean_str(c)}, {d_})" for a, b, c, d_ in p["request_probe"]) + "]\n"
+    body += "/-- `PhysicalDevice.async_setup`, probed: the failed frame types end up in `frame_errors`, in order, and `loaded` is set -/\n"
+    body += f"def setupErrorsProbe : Nat := {p['setup_errors_probe']}\n"
+    body += "/-- `EcoMAX.async_setup`, probed: the data names whose arrival makes the requests start; the frame types requested, in order -/\n"
+    body += "def setupGate : List String := " + strs(p["setup_gate"]) + "\n"
+    body += "def setupRequestOrder : List Nat := [" + ", ".join(str(x) for x in p["setup_request_order"]) + "]\n"
+    body += "def setupFramesOfDevice : List (Nat × String) := " + lean_list(
+        [f"({a}, {lean_str(b)})" for a, b in p["setup_frames_of_device"]], 3) + "\n\n"
+    body += ("/-- (class, event name, handler subscribed by a fresh object, 1 = the handler blocks until product information is there /\n"
+             "    0 = it does not / 2 = it blocks for another reason) -/\n")
+    body += "def handlerWaitsProduct : List (String × String × String × Nat) := " + lean_list(
+        [f"({lean_str(c)}, {lean_str(e)}, {lean_str(m)}, {w})" for c, e, m, w in p["handler_waits_product"]], 2) + "\n\n"
     body += "end PlumVerif.Gen\n"
     return body
 
